@@ -220,6 +220,8 @@ pub fn judge<G: GraphLike + 'static>(st: &mut Stats, case: &Case, backend: &'sta
                 let _ = std::fs::create_dir_all(&dir);
                 let f = format!("{}/g-{}.qgraph", dir, NEXT.fetch_add(1, std::sync::atomic::Ordering::Relaxed));
                 let path = std::path::Path::new(&f);
+                // the path already holds something longer (an earlier, bigger file): writing replaces it
+                let _ = std::fs::write(path, "x".repeat(txt.len() + 100));
                 let r = quizx::json::write_graph(&g, path).and_then(|_| quizx::json::read_graph::<G>(path));
                 let _ = std::fs::remove_file(path);
                 r
@@ -381,6 +383,17 @@ pub fn run(rep: &mut Report) {
         }
         for sc in scalar_grid(quick) {
             cases.push(Case { spec: sh.clone(), coords: vec![], hboxes: vec![], phase: None, scalar: sc, gap: 1 });
+        }
+        // a bare wire drawn as ONE boundary vertex that is both an input and an output (the format annotates both roles):
+        // appended last, first, and in the middle of the lists
+        for pos in 0..3 {
+            let mut d = sh.clone();
+            let w = d.add(0, (0, 1));
+            let at = |l: &Vec<u8>| match pos { 0 => l.len(), 1 => 0, _ => l.len() / 2 };
+            let (ai, ao) = (at(&d.inputs), at(&d.outputs));
+            d.inputs.insert(ai, w);
+            d.outputs.insert(ao, w);
+            cases.push(Case { spec: d, coords: vec![], hboxes: vec![], phase: None, scalar: ScalarSpec::One, gap: pos });
         }
     }
     let stats = sweep(&cases, |st, i, case| {
